@@ -225,6 +225,7 @@ IGNORED_COMMANDS = {
     'HCI_WRITE_CONNECTION_ACCEPT_TIMEOUT_COMMAND', 'HCI_WRITE_PAGE_SCAN_ACTIVITY_COMMAND',
     'HCI_WRITE_INQUIRY_SCAN_ACTIVITY_COMMAND', 'HCI_READ_ENCRYPTION_KEY_SIZE_COMMAND',
     'HCI_LE_SET_PRIVACY_MODE_COMMAND', 'HCI_LE_SET_DEFAULT_SUBRATE_COMMAND',
+    'HCI_REJECT_CONNECTION_REQUEST_COMMAND',     # no handler in the controller: answered as unknown, nothing changes
 }
 
 # events that carry nothing the property talks about
@@ -591,6 +592,14 @@ class World:
         self.conns[i].append(c)
         k = len(self.conns[i]) - 1
         self.obs[i].append(('conn', k, c.handle, enc_addr(c.peer_address), int(c.role) == 0, int(c.transport) == 1))
+        if int(c.transport) == 0 and int(c.role) == 0:
+            # BR/EDR: the paged device answers before the initiator completes, so at this moment the peer must
+            # already hold (and have reported) its end of the connection
+            j = self.owner(enc_addr(c.peer_address))
+            held = j is not None and any(int(x.transport) == 0 and enc_addr(x.peer_address) in self.addrs[i]
+                                         for x in self.dev[j].connections.values())
+            if not held:
+                self.obs[i].append(('early', k, j))
         c.on('disconnection', lambda reason, i=i, k=k, c=c: self.obs[i].append(('disc', k, c.handle, int(reason))))
 
     def _on_sco_request(self, i, connection, link_type):
@@ -674,6 +683,8 @@ async def run_ops(cfg, ops_source):
     w.adv_log = []           # (device, encoded address, data, data + scan response) of every advertising start
     w.target_enc = []        # encoded address of every connect target, resolved when the op ran
     w.cancelled = set()      # connect tasks for which a cancel was issued
+    w.deaf_at_connect = set()
+    w.deaf = [False] * w.n   # devices whose application currently does not accept BR/EDR connection requests
     for op in ops_source(w):
         w.ops.append(op)
         kind = op[0]
@@ -713,6 +724,10 @@ async def run_ops(cfg, ops_source):
             w.dev[i].random_address = a
             w.tasks.append(('set_random', i, None, asyncio.ensure_future(w.dev[i].send_sync_command(
                 hci.HCI_LE_Set_Random_Address_Command(random_address=a)))))
+        elif kind == 'accept_any':              # the application of device i stops / resumes accepting BR/EDR requests
+            _, i, flag = op
+            w.dev[i].classic_accept_any = bool(flag)
+            w.deaf[i] = not flag
         elif kind == 'cancel':                  # LE Create Connection Cancel while connect() is pending
             _, i = op
             pend = [t for (kd, d, tg, t) in w.tasks if kd == 'connect' and d == i and not t.done()]
@@ -743,6 +758,8 @@ async def run_ops(cfg, ops_source):
             _, i, target = op
             a = target_addr(target, w.cur_rnd)
             w.target_enc.append(enc_addr(a))
+            if w.deaf[target[1]] if target[0] == 'pub' else False:
+                w.deaf_at_connect.add(len(w.target_enc) - 1)
             target = list(target) + ['@', len(w.target_enc) - 1]
             w.tasks.append(('cl_connect', i, target, asyncio.ensure_future(w.dev[i].connect(
                 a, transport=PhysicalTransport.BR_EDR))))
@@ -1239,6 +1256,64 @@ def gen_multilink(rng):
     return cfg, ops
 
 
+def gen_reconnect(rng):
+    """BR/EDR reconnect histories between the same two controllers: connect, (data,) disconnect by either side,
+    connect again -- in either direction, with the LMP packets of the second attempt delivered at once, held while
+    the initiator already talks, or with a peer whose application no longer accepts (never answers)."""
+    n = rng.choice([2, 3])
+    cfg = {'n': n, 'ext': [False] * n}
+    a, b = rng.choice([(0, 1), (1, 0)])
+    ops = []
+    ka = kb = 0                   # next connection index at a and b
+    pid = 0
+    first_refused = rng.chance(1, 5)
+    if first_refused:
+        # the first attempt is never answered: the initiator's attempt stays pending; a third device (if any) connects
+        ops += [['accept_any', b, False], ['cl_connect', a, ['pub', b]], ['flush'], ['accept_any', b, True]]
+        if n == 3:
+            ops += [['cl_connect', 2, ['pub', b]], ['flush'], ['send', 2, 0, [200, 0]], ['flush']]
+        return cfg, ops
+    ops += [['cl_connect', a, ['pub', b]], ['flush']]
+    ia, ib = ka, kb
+    ka += 1
+    kb += 1
+    if rng.chance(2, 3):
+        pid += 1
+        ops += [['send', a, ia, [pid, 0, 1]]]
+        pid += 1
+        ops += [['send', b, ib, [pid, 0]]]
+        ops += [['flush']]
+    ops += [['disconnect', rng.choice([a, b]), 0], ['flush']]
+    rounds = rng.choice([1, 1, 2])
+    for _ in range(rounds):
+        c, d = (a, b) if rng.chance(2, 3) else (b, a)        # who initiates this time
+        mode = rng.choice(['natural', 'held', 'held', 'deaf'])
+        kc, kd = (ka, kb) if c == a else (kb, ka)
+        if mode == 'deaf':
+            ops += [['accept_any', d, False], ['cl_connect', c, ['pub', d]], ['flush']]
+            # if the initiator believes it is connected it talks
+            pid += 1
+            ops += [['send', c, kc, [pid, 0, 9]], ['flush']]
+            return cfg, ops
+        ops += [['cl_connect', c, ['pub', d]]]
+        if mode == 'held':
+            # the initiator's request is still on the link: whatever it reports now is premature; it talks if it can
+            pid += 1
+            ops += [['send', c, kc, [pid, 0, 7]], ['deliver', 0], ['deliver', 0]]
+        ops += [['flush']]
+        pid += 1
+        ops += [['send', c, kc, [pid, 0]]]
+        pid += 1
+        ops += [['send', d, kd, [pid, 0, 3]], ['flush']]
+        ka += 1
+        kb += 1
+        ops += [['disconnect', rng.choice([c, d]), kc if True else 0], ['flush']]
+        # the disconnect op takes the index at the chosen device: fix it up
+        who = ops[-2][1]
+        ops[-2][2] = kc if who == c else kd
+    return cfg, ops
+
+
 def replay_source(ops):
     def src(w):
         for op in ops:
@@ -1258,6 +1333,12 @@ def oracle(w):
         for o in w.obs[i]:
             if o[0] == 'conn':
                 recs.append((i,) + tuple(o[1:]))
+    # 0. a BR/EDR connection is announced to the initiator only once the paged device holds its end
+    for i in range(n):
+        for o in w.obs[i]:
+            if o[0] == 'early':
+                bad.append(('connection-before-peer', f'device {i}: BR/EDR connection #{o[1]} was reported while device '
+                                                      f'{o[2]} did not hold (had not accepted) it'))
     # 1. handles live and distinct per device, over every kind of link (ACL LE / BR/EDR, SCO, CIS)
     for i in range(n):
         live = []                               # (kind, index, handle)
@@ -1343,7 +1424,7 @@ def oracle(w):
             bad.append(('connect-error', f'device {i}: connect({target}) raised {k}'))
         elif status == 'pending':
             # everything in flight was delivered and every advertiser had one more advertising event
-            if kind == 'cl_connect':
+            if kind == 'cl_connect' and target[-1] not in w.deaf_at_connect:
                 bad.append(('connect-never-completes', f'device {i}: BR/EDR connect({target}) never completed'))
             elif (target[1], t) in w.advertised:
                 bad.append(('connect-never-completes', f'device {i}: connect({target}) never completed although '
@@ -1766,6 +1847,10 @@ def run(ctx):
         cfg, ops = gen_multilink(rng.fork(f'multilink{s}'))
         run_case(ctx, f'multilink{s}', cfg, replay_source(ops), pending, sample=(s < 1))
         ctx.count('mode.multilink')
+    for s in range(ctx.n(12, 300)):
+        cfg, ops = gen_reconnect(rng.fork(f'reconnect{s}'))
+        run_case(ctx, f'reconnect{s}', cfg, replay_source(ops), pending, sample=(s < 1))
+        ctx.count('mode.reconnect')
     ctx.log(f'{len(pending)} scenarios run on the implementation; evaluating the model')
     evaluate_models(ctx, pending)
     ctx.log('model evaluated')
@@ -1775,6 +1860,11 @@ def search(ctx):
     """proof or correspondence broke: look for an input on which the oracle fails"""
     rng = ctx.rng.fork('search')
     pending = []
+    for s in range(60):
+        cfg, ops = gen_reconnect(rng.fork(f'reconnect{s}'))
+        run_case(ctx, f'search-reconnect{s}', cfg, replay_source(ops), pending)
+        if ctx.violations:
+            return
     for s in range(60):
         cfg, ops = gen_multilink(rng.fork(f'multilink{s}'))
         run_case(ctx, f'search-multilink{s}', cfg, replay_source(ops), pending)
